@@ -1596,11 +1596,19 @@ fn eff_function(src: &Src, cfg: &EffCfg) -> R<String> {
     for (r, _) in cfg.params { tr.bound.insert(r.to_string()); }
     let mut wl: Option<syn::ExprWhile> = None;
     let mut tail: Option<Expr> = None;
+    let mut buf_len: Option<String> = None;
     for st in &block.stmts {
         match st {
             Stmt::Local(l) => {
                 let t = quote::ToTokens::to_token_stream(st).to_string().replace(' ', "");
-                if t.contains("vec![") { continue; }      // the byte buffer: contents are not modelled
+                if t.contains("vec![") {
+                    // the byte buffer: contents are not modelled, its LENGTH is (every `buf[..n]` below must fit in it)
+                    let inner = t.split_once("vec![").and_then(|x| x.1.rsplit_once(']')).map(|x| x.0.to_string()).ok_or("vec! shape")?;
+                    let (_, lenx) = inner.split_once(';').ok_or("vec![v; n] expected")?;
+                    let e: Expr = syn::parse_str(lenx).map_err(|e| format!("buffer length: {}", e))?;
+                    buf_len = Some(tr.expr(&e)?);
+                    continue;
+                }
                 if let Pat::Ident(pi) = strip_type(&l.pat) {
                     let init = &l.init.as_ref().ok_or("let without init")?.expr;
                     muts.push((pi.ident.to_string(), tr.expr(init)?));
@@ -1637,6 +1645,23 @@ fn eff_function(src: &Src, cfg: &EffCfg) -> R<String> {
     writeln!(out, "(* {}:{}  fn {}, translated: the `while` becomes a fuelled fixpoint over the loop-carried variables, every kernel call\n   consumes the next answer and appends one event to the trace, `return Err`/`?`/`continue` end or restart the iteration *)",
              src.path, block.span().start().line, cfg.fname).unwrap();
     out.push_str(&text);
+    if let Some(bl) = &buf_len {
+        let mut bl = bl.clone();
+        for (r, g) in cfg.params { if r != g { bl = bl.replace(r, g); } }
+        // every slice `buf[..x]` taken in the loop body, as written
+        let bt = quote::ToTokens::to_token_stream(&wl.body).to_string().replace(' ', "");
+        let mut slices: Vec<String> = vec![];
+        let mut rest = bt.as_str();
+        while let Some(i) = rest.find("buf[..") {
+            let r2 = &rest[i + 6..];
+            let j = r2.find(']').ok_or("slice shape")?;
+            slices.push(r2[..j].to_string());
+            rest = &r2[j..];
+        }
+        writeln!(out, "(* {}: the byte buffer of {} is allocated with this many bytes; the loop slices it as {:?} *)", src.path, cfg.fname, slices).unwrap();
+        writeln!(out, "Definition {}_buf_len ({} : N) : N := {}.", cfg.gname, pnames.join(" "), bl).unwrap();
+        writeln!(out, "Definition {}_buf_slices : list string := [{}].\n", cfg.gname, slices.iter().map(|x| format!("\"{}\"", x)).collect::<Vec<_>>().join("; ")).unwrap();
+    }
     writeln!(out, "Definition {g} (fuel : nat) {fp} ({ps} {gs} : N) (ans : list xans) : {ot} :=\n  {ln} fuel {fnm} {ps} {inits} {gs} [] ans.\n",
              g = cfg.gname, fp = cfg.fparams, fnm = cfg.fnames, ps = pnames.join(" "), gs = cfg.ghosts.join(" "), ot = cfg.out_ty, ln = loop_name, inits = inits.join(" ")).unwrap();
     Ok(out)
